@@ -1,10 +1,52 @@
-/- dispatch table of the driver: first token of a case line → handler -/
+/- dispatch table of the driver: the prefix of the command token (before the first '.') selects
+   the property's handler; the handler sees the full command token. -/
+import FileD.Drv.C01
+import FileD.Drv.C02
+import FileD.Drv.C03
+import FileD.Drv.C04
+import FileD.Drv.C05
 import FileD.Drv.C06
+import FileD.Drv.C07
+import FileD.Drv.C08
+import FileD.Drv.C09
+import FileD.Drv.C10
+import FileD.Drv.C11
+import FileD.Drv.C12
+import FileD.Drv.C13
+import FileD.Drv.C14
+import FileD.Drv.C15
+import FileD.Drv.C16
+import FileD.Drv.C17
+import FileD.Drv.C18
+import FileD.Drv.C19
+import FileD.Drv.C20
 namespace FileD.Drv
 
 def dispatch (cmd : String) (args impl : List String) : Option (String × String) :=
-  match cmd with
-  | "c06.turns" => DrvC06.handle args impl
+  match (cmd.splitOn ".").head? with
+  | none => none
+  | some pre =>
+  match pre with
+  | "c01" => DrvC01.handle cmd args impl
+  | "c02" => DrvC02.handle cmd args impl
+  | "c03" => DrvC03.handle cmd args impl
+  | "c04" => DrvC04.handle cmd args impl
+  | "c05" => DrvC05.handle cmd args impl
+  | "c06" => DrvC06.handle cmd args impl
+  | "c07" => DrvC07.handle cmd args impl
+  | "c08" => DrvC08.handle cmd args impl
+  | "c09" => DrvC09.handle cmd args impl
+  | "c10" => DrvC10.handle cmd args impl
+  | "c11" => DrvC11.handle cmd args impl
+  | "c12" => DrvC12.handle cmd args impl
+  | "c13" => DrvC13.handle cmd args impl
+  | "c14" => DrvC14.handle cmd args impl
+  | "c15" => DrvC15.handle cmd args impl
+  | "c16" => DrvC16.handle cmd args impl
+  | "c17" => DrvC17.handle cmd args impl
+  | "c18" => DrvC18.handle cmd args impl
+  | "c19" => DrvC19.handle cmd args impl
+  | "c20" => DrvC20.handle cmd args impl
   | _ => none
 
 end FileD.Drv
